@@ -3,6 +3,7 @@ package plat
 import (
 	"fmt"
 	"math/rand"
+	"os"
 	"reflect"
 	"sort"
 	"strings"
@@ -155,6 +156,9 @@ func dumpAllBuffers(d *driver.Driver) []bufDump {
 // C02 is the property check.
 func C02(t *testing.T, ch *choice.Source, opt harness.Options, env *Env) harness.Result {
 	c := c02cfg{Kind: ch.Pick([]int{4, 2, 1, 5}, "kind"), Arch: "gcn3"}
+	if os.Getenv("VERIF_FOCUS") == "c02-gfx9" {
+		c.Kind = 0 // bug-hunting aid (VERIF_FOCUS is never set by registered commands and is recorded in replay files)
+	}
 	probes := map[string]uint64{}
 	var entry *BenchEntry
 	if c.Kind == 3 {
@@ -188,6 +192,7 @@ func C02(t *testing.T, ch *choice.Source, opt harness.Options, env *Env) harness
 	inputSeed := int64(ch.Intn(1<<30, "inputseed"))
 	benchSeed := uint64(ch.Intn(1<<30, "benchseed")) + 1
 	var listing []string
+	var genCO *insts.KernelCodeObject
 
 	// the workload: identical calls in both modes
 	work := func(p *Platform, e *Env) {
@@ -195,11 +200,7 @@ func C02(t *testing.T, ch *choice.Source, opt harness.Options, env *Env) harness
 		rand.Seed(inputSeed)
 		switch c.Kind {
 		case 0:
-			co, l, err := kasm.RandomProgram(choice.New(progSeed), c.WG, c.Arch == "cdna3")
-			if err != nil {
-				harness.Bug("kasm: %v", err)
-			}
-			listing = l
+			co := genCO
 			ctx := d.Init()
 			d.SelectGPU(ctx, 1)
 			n := c.WG * c.NWG
@@ -272,6 +273,16 @@ func C02(t *testing.T, ch *choice.Source, opt harness.Options, env *Env) harness
 			probes["cdna3_on_mi300a"] = 1
 			probes["generated_program_gfx9"] = 1
 		}
+		// the program is drawn from the run's own decision stream, so that minimisation simplifies the
+		// program (fewer and simpler instructions) along with everything else
+		if os.Getenv("VERIF_FOCUS") == "c02-gfx9" {
+			c.Arch, c.Timing.GPUType = "cdna3", "mi300a" // bug-hunting aid (VERIF_FOCUS is never set by registered commands and is recorded in replay files)
+		}
+		co, l, err := kasm.RandomProgram(ch, c.WG, c.Arch == "cdna3")
+		if err != nil {
+			harness.Bug("kasm: %v", err)
+		}
+		genCO, listing = co, l
 	case 1:
 		probes["barrier_program"] = 1
 	case 2:
@@ -406,10 +417,18 @@ func C02(t *testing.T, ch *choice.Source, opt harness.Options, env *Env) harness
 				if a.data[k] != b.data[k] {
 					res.Rule, res.Signature = "R1", tag+"/buffer-bytes-differ"
 					res.Detail = fmt.Sprintf("buffer %d (%#x, %d bytes) differs at byte %d: emulation %#x, timing %#x", i, a.ptr, a.size, k, a.data[k], b.data[k])
-					if tm.stale != nil && tm.stale.StaleHits > 0 {
+					// where else the buffer differs (32-bit words), for the report
+					var words []int
+					for w := 0; w+4 <= len(a.data) && len(words) < 24; w += 4 {
+						if string(a.data[w:w+4]) != string(b.data[w:w+4]) {
+							words = append(words, w/4)
+						}
+					}
+					res.Detail += fmt.Sprintf("; differing 32-bit words (first 24): %v", words)
+					if cause, ex := tm.stale.knownCause(); cause != "" {
 						// the cause is known and named; the signature does not depend on the program
-						res.Signature = "buffer-bytes-differ/" + staleL1Cause
-						res.Detail += fmt.Sprintf("; %d such reads, first: %s", tm.stale.StaleHits, tm.stale.Example)
+						res.Signature = "buffer-bytes-differ/" + cause
+						res.Detail += "; " + ex
 					}
 					break
 				}
